@@ -586,3 +586,199 @@ MUTANTS["C02"] += [
 MUTANTS["C01"] += [
     M("balance_only_loaded_ports_is_feasible", ARCH, "                indices = [port_list.index(p) for p in ports]\n                # check if port sum", "                indices = [port_list.index(p) for p in ports]\n                indices = [i for i in indices if instruction_form.port_pressure[i] > 0]\n                if len(indices) < 2:\n                    continue\n                # check if port sum", "SILENT", "a subset of the micro-op's own ports: feasibility (C01) is not affected, optimality (C02-P7) is"),
 ]
+
+# ---- round 2: line numbering forms (rule R1 derives the number symbolically) -------------------------------------
+_NUM_OLD = ('        lines = file_content.split("\\n")\n        for i, line in enumerate(lines):\n            if line.strip() == "":\n'
+            '                continue\n            asm_instructions.append(self.parse_line(line, i + 1 + start_line))\n')
+_NUM = {
+    "ok_direct": ('        for i, line in enumerate(file_content.split("\\n")):\n            if line.strip() == "":\n                continue\n'
+                  '            asm_instructions.append(self.parse_line(line, i + 1 + start_line))\n'),
+    "ok_enumerate_start": ('        for i, line in enumerate(file_content.split("\\n"), start_line + 1):\n            if line.strip():\n'
+                           '                asm_instructions.append(self.parse_line(line, i))\n'),
+    "ok_counter": ('        line_number = start_line\n        for line in file_content.split("\\n"):\n            line_number += 1\n'
+                   '            if line.strip() == "":\n                continue\n'
+                   '            asm_instructions.append(self.parse_line(line, line_number))\n'),
+    "ok_counter_after": ('        line_number = start_line + 1\n        for line in file_content.split("\\n"):\n            if line.strip() != "":\n'
+                         '                asm_instructions.append(self.parse_line(line, line_number))\n            line_number += 1\n'),
+    "ok_rstrip": ('        lines = file_content.rstrip("\\n").split("\\n")\n        for i, line in enumerate(lines):\n            if not line.strip():\n'
+                  '                continue\n            asm_instructions.append(self.parse_line(line, i + start_line + 1))\n'),
+    "bad_counter_skips_blank": ('        line_number = start_line\n        for line in file_content.split("\\n"):\n            if line.strip() == "":\n'
+                                '                continue\n            line_number += 1\n'
+                                '            asm_instructions.append(self.parse_line(line, line_number))\n'),
+    "bad_strip_leading": ('        lines = file_content.strip("\\n").split("\\n")\n        for i, line in enumerate(lines, start=start_line + 1):\n'
+                          '            if line.strip() == "":\n                continue\n'
+                          '            asm_instructions.append(self.parse_line(line, i))\n'),
+    "bad_enumerate_start_plus_one": ('        for i, line in enumerate(file_content.split("\\n"), start=1):\n            if not line.strip():\n'
+                                     '                continue\n            asm_instructions.append(self.parse_line(line, start_line + i + 1))\n'),
+    "bad_counter_after_off_by_one": ('        line_number = start_line\n        for line in file_content.split("\\n"):\n            if line.strip() != "":\n'
+                                     '                asm_instructions.append(self.parse_line(line, line_number))\n            line_number += 1\n'),
+    "bad_skips_hash_lines": ('        for i, line in enumerate(file_content.split("\\n")):\n            if line.strip() == "" or line.startswith("#"):\n'
+                             '                continue\n            asm_instructions.append(self.parse_line(line, i + 1 + start_line))\n'),
+}
+for _p in ("C09", "C10"):
+    for _n, _new in _NUM.items():
+        MUTANTS[_p].append(M("numbering_" + _n, BP, _NUM_OLD, _new, "SILENT" if _n.startswith("ok_") else "R1",
+                             "behaviour-preserving form" if _n.startswith("ok_") else
+                             ("seeded change (round 2)" if _n in ("bad_counter_skips_blank", "bad_strip_leading") else "")))
+
+MUTANTS["C04"] += [
+    M("reset_loop_removed", KDG, "            for line_number in longest_path[:-1]:\n                self._get_node_by_lineno(int(line_number)).latency_cp = 0\n", "",
+      "R3", "seeded change (round 2): per-line CP values double on every further call"),
+]
+
+MUTANTS["C06"] += [
+    M("state_init_hoisted_out_of_dst_loop", KDG,
+      ["        for dst in chain(\n            instruction_form.semantic_operands[\"destination\"],\n            instruction_form.semantic_operands[\"src_dst\"],\n        ):\n            # TODO instructions before",
+       "            register_changes = self._update_reg_changes(instruction_form)\n            # print(\"FROM\""],
+      ["        register_changes = self._update_reg_changes(instruction_form)\n        for dst in chain(\n            instruction_form.semantic_operands[\"destination\"],\n            instruction_form.semantic_operands[\"src_dst\"],\n        ):\n            # TODO instructions before",
+       "            # print(\"FROM\""],
+      "R4", "seeded change (round 2): state leaks from one destination's scan into the next"),
+]
+
+MUTANTS["C10"] += [
+    M("register_index_truthiness", PA, '            index=operand["index"] if "index" in operand else None,', '            index=operand.get("index") or None,', "R12",
+      "seeded change (round 2): element index 0 of an expanded list/range member is dropped"),
+    M("register_lanes_truthiness_is_fine", PA, '            lanes=operand["lanes"] if "lanes" in operand else None,', '            lanes=operand.get("lanes") or None,', "SILENT",
+      "lanes is a non-empty token string: truthiness and presence coincide"),
+]
+
+_SEQ_Q = "                    dg, instr.line_number, instr.line_number + offset\n                ):\n                    all_paths.append(path)"
+_WRK_Q = "                dg, instr.line_number, instr.line_number + offset\n            )\n            tmp_list"
+MUTANTS["C05"] += [
+    M("worker_depth_bound_is_slice_length", KDG, [_SEQ_Q, _WRK_Q],
+      [_SEQ_Q.replace("+ offset\n", "+ offset, cutoff=klen\n"), _WRK_Q.replace("+ offset\n", "+ offset, cutoff=len(kernel)\n")], "R3",
+      "seeded change (round 2): in the worker `kernel` is its slice of roots"),
+    M("depth_bound_by_node_count_is_fine", KDG, [_SEQ_Q, _WRK_Q],
+      [_SEQ_Q.replace("+ offset\n", "+ offset, cutoff=len(dg)\n"), _WRK_Q.replace("+ offset\n", "+ offset, cutoff=len(dg)\n")], "SILENT",
+      "a simple path cannot have more edges than the graph has nodes"),
+    M("seq_skips_roots_already_on_a_cycle", KDG,
+      ["            start_time = time.time()\n            for instr in kernel:\n                for path in nx.algorithms", "                    all_paths.append(path)\n                    if timeout != -1"],
+      ["            start_time = time.time()\n            visited = set()\n            for instr in kernel:\n                if instr.line_number in visited:\n                    continue\n                for path in nx.algorithms",
+       "                    all_paths.append(path)\n                    visited.update(path)\n                    if timeout != -1"], "R3",
+      "seeded change (round 2, given for C14): second cycle through an instruction is lost, depends on rotation"),
+    M("worker_skips_roots_already_on_a_cycle", KDG,
+      ["        for instr in kernel:\n            generator_path", "            dst_list.extend(tmp_list)"],
+      ["        visited = set()\n        for instr in kernel:\n            if instr.line_number in visited:\n                continue\n            generator_path",
+       "            visited.update(x for pth in tmp_list for x in pth)\n            dst_list.extend(tmp_list)"], "R3", "seeded change (round 2, given for C14)"),
+]
+MUTANTS["C16"] += [
+    M("worker_depth_bound_is_slice_length", KDG, [_SEQ_Q, _WRK_Q],
+      [_SEQ_Q.replace("+ offset\n", "+ offset, cutoff=klen\n"), _WRK_Q.replace("+ offset\n", "+ offset, cutoff=len(kernel)\n")], "R2",
+      "seeded change (round 2): the worker bounds the depth by its slice length, the sequential search by the kernel length"),
+    M("different_but_sufficient_depth_bounds_are_fine", KDG, [_SEQ_Q, _WRK_Q],
+      [_SEQ_Q.replace("+ offset\n", "+ offset, cutoff=klen\n"), _WRK_Q.replace("+ offset\n", "+ offset, cutoff=len(dg)\n")], "SILENT",
+      "both bounds are at least the longest possible path"),
+    M("worker_skips_roots_already_on_a_cycle", KDG,
+      ["        for instr in kernel:\n            generator_path", "            dst_list.extend(tmp_list)"],
+      ["        visited = set()\n        for instr in kernel:\n            if instr.line_number in visited:\n                continue\n            generator_path",
+       "            visited.update(x for pth in tmp_list for x in pth)\n            dst_list.extend(tmp_list)"], "R2",
+      "which roots are skipped depends on the slice boundaries, i.e. on the worker count"),
+]
+
+_DEDUP_OLD = "            lat_path.sort()\n\n            # Ignore duplicate paths which differ only in the root node\n            if tuple(lat_path) in paths_set:\n                continue\n            paths_set.add(tuple(lat_path))\n"
+for _p, _r in (("C05", "R4"), ("C16", "R3")):
+    MUTANTS[_p] += [
+        M("sorted_rebinding_is_fine", KDG, _DEDUP_OLD, _DEDUP_OLD.replace("lat_path.sort()", "lat_path = sorted(lat_path)"), "SILENT", "behaviour-preserving"),
+        M("separate_sorted_key_is_fine", KDG, _DEDUP_OLD, "            lat_path.sort()\n            path_key = tuple(sorted(lat_path))\n            if path_key in paths_set:\n                continue\n            paths_set.add(path_key)\n", "SILENT", "behaviour-preserving"),
+        M("stored_list_left_unsorted", KDG, _DEDUP_OLD, "            path_key = tuple(sorted(lat_path))\n            if path_key in paths_set:\n                continue\n            paths_set.add(path_key)\n", _r,
+          "seeded change (round 2): the kept rotation depends on which root's path arrives first"),
+    ]
+
+# ---- round 2: the cache key computed by a streaming helper --------------------------------------------------------
+_HK_OLD1 = "        p = Path(filepath)\n        hexhash = hashlib.sha256(p.read_bytes()).hexdigest()\n\n        # 1. companion cachefile: same location"
+_HK_OLD2 = "        p = Path(filepath)\n        hexhash = hashlib.sha256(p.read_bytes()).hexdigest()\n        # 1. companion cachefile: same location"
+_HK_ANCHOR = "    def _get_cached(self, filepath):\n"
+
+
+def _hk(body):
+    return ([_HK_ANCHOR, _HK_OLD1, _HK_OLD2],
+            ["    @staticmethod\n    def _hash_file(p, blocksize=1 << 16):\n        sha = hashlib.sha256()\n        with p.open(\"rb\") as f:\n" + body
+             + "        return sha.hexdigest()\n\n" + _HK_ANCHOR,
+             _HK_OLD1.replace("hashlib.sha256(p.read_bytes()).hexdigest()", "self._hash_file(p)"),
+             _HK_OLD2.replace("hashlib.sha256(p.read_bytes()).hexdigest()", "self._hash_file(p)")])
+
+
+_HK = {
+    "ok_while_block": "            block = f.read(blocksize)\n            while block:\n                sha.update(block)\n                block = f.read(blocksize)\n",
+    "ok_iter_sentinel": "            for block in iter(lambda: f.read(blocksize), b\"\"):\n                sha.update(block)\n",
+    "ok_while_true_break": "            while True:\n                block = f.read(blocksize)\n                if not block:\n                    break\n                sha.update(block)\n",
+    "ok_walrus": "            while (block := f.read(blocksize)):\n                sha.update(block)\n",
+    "ok_read_all": "            sha.update(f.read())\n",
+    "bad_drops_last_partial_block": "            block = f.read(blocksize)\n            while len(block) == blocksize:\n                sha.update(block)\n                block = f.read(blocksize)\n",
+    "bad_first_block_only": "            block = f.read(blocksize)\n            sha.update(block)\n            block = f.read(blocksize)\n",
+    "bad_break_before_update": "            while True:\n                block = f.read(blocksize)\n                if len(block) < blocksize:\n                    break\n                sha.update(block)\n",
+    "bad_iter_skips_short": "            for block in iter(lambda: f.read(blocksize), b\"\"):\n                if len(block) < blocksize:\n                    continue\n                sha.update(block)\n",
+}
+for _n, _b in _HK.items():
+    _o, _nw = _hk(_b)
+    MUTANTS["C17"].append(M("hash_helper_" + _n, HW, _o, _nw, "SILENT" if _n.startswith("ok_") else "R1",
+                            "behaviour-preserving streaming hash" if _n.startswith("ok_") else
+                            ("seeded change (round 2)" if "last_partial" in _n else "part of the file does not enter the key")))
+
+_CLK_OLD = ["                    start_time = time.time()\n                    while time.time() - start_time <= timeout:",
+            "            start_time = time.time()\n            for instr in kernel:",
+            "                    if timeout != -1 and time.time() - start_time > timeout:"]
+
+
+def _clk(expr, attr=None):
+    new = [o.replace("time.time()", expr) for o in _CLK_OLD]
+    if attr:
+        return (["    INSTRUCTION_THRESHOLD = 50\n"] + _CLK_OLD, ["    INSTRUCTION_THRESHOLD = 50\n    _clock = staticmethod(%s)\n" % attr] + new)
+    return (_CLK_OLD, new)
+
+
+MUTANTS["C19"] += [
+    M("cpu_clock_via_class_attribute", KDG, *_clk("self._clock()", "time.process_time"), "R1", "seeded change (round 2): the parent's CPU clock stands still while it polls"),
+    M("cpu_clock_direct", KDG, *_clk("time.process_time()"), "R1"),
+    M("monotonic_clock_is_fine", KDG, *_clk("time.monotonic()"), "SILENT", "a wall clock"),
+    M("wall_clock_via_class_attribute_is_fine", KDG, *_clk("self._clock()", "time.perf_counter"), "SILENT", "a wall clock behind an alias"),
+]
+
+MUTANTS["C18"] += [
+    M("parse_file_memoised", BP, ["import re\n", "    def parse_file(self, file_content, start_line=0):"],
+      ["import re\nfrom functools import lru_cache\n", "    @lru_cache(maxsize=64)\n    def parse_file(self, file_content, start_line=0):"], "R2",
+      "seeded change (round 1): a second analysis of the same text gets the instruction forms the first one annotated"),
+    M("memoised_pure_string_function_is_fine", BP, ["import re\n", "    @staticmethod\n    def detect_ISA(file_content):"],
+      ["import re\nfrom functools import lru_cache\n", "    @staticmethod\n    @lru_cache(maxsize=8)\n    def detect_ISA(file_content):"], "SILENT",
+      "the cached value is a string"),
+]
+
+MUTANTS["C01"] += [
+    M("revert_inplace_uops", ARCH, "data_port_uops = data_port_uops + st_data_port_uops", "data_port_uops += st_data_port_uops", "R6",
+      "revert of the fix = seeded change (round 2): store micro-ops leak into the model's load row, later loads get pressure on store ports"),
+]
+
+MUTANTS["C03"] += [
+    M("suffix_retry_keeps_memory_operand", ISA, "                        instruction_form.mnemonic[:-1], operands_reg\n", "                        instruction_form.mnemonic[:-1], instruction_form.operands\n", "R9",
+      "seeded change (round 2): sbbq/adcq with a memory source silently get default roles"),
+]
+
+MUTANTS["C20"] += [
+    M("bare_v_shape_empty", DBI, '"shape": operand[1:2] if operand[1:2] != "" else "d",', '"shape": operand[1:2] if operand[1:2] in "bhsd" else "d",', "R1",
+      "seeded change (round 2): '' is a substring of every string, the documented default lane width d is lost"),
+    M("shape_default_by_or_is_fine", DBI, '"shape": operand[1:2] if operand[1:2] != "" else "d",', '"shape": operand[1:2] or "d",', "SILENT", "behaviour-preserving"),
+    M("scalar_codes_as_tuple_is_fine", DBI, 'elif operand in "wxbhsdq":', 'elif operand in ("w", "x", "b", "h", "s", "d", "q"):', "SILENT", "behaviour-preserving on the documented codes"),
+    M("x86_gpr_by_equality_is_fine", DBI, 'if operand.startswith("r"):', 'if operand == "r":', "SILENT", "the documented code is 'r'"),
+    M("pre_indexed_by_membership_is_fine", DBI, '"pre_indexed": True if "r" in operand else False,', '"pre_indexed": "r" in operand,', "SILENT", "behaviour-preserving"),
+    M("scale_flag_confused_with_index", DBI, '"scale": 8 if "s" in operand else 1,\n            "pre_indexed"', '"scale": 8 if "i" in operand else 1,\n            "pre_indexed"', "R1"),
+]
+
+for _n, _new in _NUM.items():
+    MUTANTS["C11"].append(M("numbering_" + _n, BP, _NUM_OLD, _new, "SILENT" if _n.startswith("ok_") else "R6",
+                            "behaviour-preserving form" if _n.startswith("ok_") else "--lines then names other lines than the file's"))
+
+MUTANTS["C08"] += [
+    M("revert_load_rows_lose_index_flags", HW, '                                    pre_indexed=m["pre_indexed"] if "pre_indexed" in m else False,\n                                    post_indexed=m["post_indexed"] if "post_indexed" in m else False,\n                                    dst=',
+      '                                    dst=', "D2", "revert of the fix (load table)"),
+    M("revert_store_rows_lose_index_flags", HW, '                                    pre_indexed=m["pre_indexed"] if "pre_indexed" in m else False,\n                                    post_indexed=m["post_indexed"] if "post_indexed" in m else False,\n                                    src=',
+      '                                    src=', "D2", "revert of the fix (store table)"),
+    M("row_flags_via_get_is_fine", HW, '                                    pre_indexed=m["pre_indexed"] if "pre_indexed" in m else False,\n                                    post_indexed=m["post_indexed"] if "post_indexed" in m else False,\n                                    dst=',
+      '                                    pre_indexed=m.get("pre_indexed", False),\n                                    post_indexed=m.get("post_indexed", False),\n                                    dst=', "SILENT", "behaviour-preserving"),
+    M("load_rows_lose_scale", HW, '                                    scale=m["scale"],\n                                    index=m["index"],\n                                    pre_indexed=m["pre_indexed"] if "pre_indexed" in m else False,\n                                    post_indexed=m["post_indexed"] if "post_indexed" in m else False,\n                                    dst=',
+      '                                    index=m["index"],\n                                    pre_indexed=m["pre_indexed"] if "pre_indexed" in m else False,\n                                    post_indexed=m["post_indexed"] if "post_indexed" in m else False,\n                                    dst=', "D2"),
+]
+
+MUTANTS["C08"] += [
+    M("revert_role_list_type_test", ARCH, '                                and not any(\n                                    isinstance(op, MemoryOperand)\n                                    for op in instruction_form.semantic_operands["destination"]\n                                )\n',
+      '                                and not isinstance(\n                                    instruction_form.semantic_operands["destination"],\n                                    MemoryOperand,\n                                )\n', "R5", "revert of the fix"),
+]
